@@ -625,7 +625,7 @@ func classifyExitFailure(r *Runner, s *Snap, pk PosKey, bal math.Int, res TxResu
 	if strings.Contains(msg, "insufficient funds") && strings.Contains(msg, "spendable balance") {
 		return "pool-short"
 	}
-	c5 := &MonC05{BaseMon{r}}
+	c5 := NewMonC05(r)
 	if cause, _ := c5.classify("undelegate", res, s, pk.Val, pk.Denom, bal.BigInt()); cause != "" {
 		return cause
 	}
